@@ -9,7 +9,7 @@ recomputation with the undecorated function; O4 exceptions agree.
 """
 import copy
 
-from sim import core, e1, e1run
+from sim import core, e1, e1run, e2, e2w, e3
 
 PROP = "C16"
 ENGINE = "E1"
@@ -67,16 +67,65 @@ def build(seed, tier):
     return case, refs
 
 
+W_E2 = {"m_random_mps": 3, "m_random_mpo": 2, "m_product_mps": 1, "m_product_mpo": 1, "m_generate_mpo": 2, "m_from_tensor": 1, "m_add": 2, "m_scal": 1, "m_matmul": 2,
+        "m_unary": 2, "m_inplace": 4, "m_measure": 2.5, "m_zipper": 1, "m_spectrum": 1, "m_dmrg_start": 0.6, "m_dmrg_step": 2, "m_tdvp_start": 0.4, "m_tdvp_step": 1.2}
+W_E3 = {"p_init": 1.2, "p_prepare": 0.8, "p_gate": 5, "p_copy": 0.7, "p_add": 1, "p_env": 2, "p_measure": 4, "p_evolve": 1.5, "p_dpt": 1.5}
+
+
+def build_mixed(seed, tier):
+    """Container world: twin MPS tasks (same family, chain length and program skeleton; different symmetry / policy) and, in part of the
+    runs, a PEPS task, interleaved on the shared tables.  Reference = the task's isolated, undisturbed run (digests taken while generating)."""
+    rng = core.stream(seed, "programs")
+    swarm = core.stream(seed, "swarm")
+    fam = rng.choice(["SpinlessFermions", "Spin12", "Spin1", "SpinfulFermions"])
+    syms = list(e2.FAMILIES[fam])
+    rng.shuffle(syms)
+    N = rng.randint(2, 3 if fam == "SpinfulFermions" else 4)
+    specs = []
+    for sym in syms[:rng.choice([2, 2, 3])]:
+        specs.append({"id": len(specs), "engine": "E2", "universe": [], "tags": {"sym": sym},
+                      "config": {"family": fam, "sym": sym, "N": N, "qd": 2, "tensordot_policy": rng.choice(e1run.POLICIES), "default_fusion": "hard", "no_randomised": True}})
+    if rng.random() < 0.5:
+        f3 = fam if fam in e3.FAMILIES3 else "Spin12"
+        specs.append({"id": len(specs), "engine": "E3", "universe": [], "tags": {},
+                      "config": {"family": f3, "sym": rng.choice(e3.FAMILIES3[f3]), "dims": list(rng.choice([(1, 2), (2, 1), (2, 2), (1, 3)])), "tree": False,
+                                 "tensordot_policy": rng.choice(e1run.POLICIES), "default_fusion": "hard"}})
+    nops = swarm.randint(6, 11)
+    pseed = core.subseed(seed, "twin-skeleton")
+    tasks, refs = [], {}
+    for sp in specs:
+        prng = core.stream(pseed, "skeleton")
+        e2kind = sp["engine"] == "E2"
+        prog, digs, t = e1run.generate_cold(seed, sp, prng, nops, dict(W_E2 if e2kind else W_E3), seed_ops=("m_random_mps", "m_random_mpo") if e2kind else ("p_init",),
+                                            cache_impl="real")
+        ts = dict(sp)
+        ts["program"] = prog
+        tasks.append(ts)
+        refs[sp["id"]] = digs
+    arm = "A-real-lru" if swarm.random() < 0.4 else "B-instrumented"
+    world = {"cache_impl": "real" if arm.startswith("A") else "instrumented", "maxsize": swarm.choice(["default", 0, 1, 2, 3, 8, 1024]),
+             "lapack": True, "check_hits": swarm.random() < 0.2}
+    kinds = [k for k in ("evict", "clear_table", "clear_all", "resize") if swarm.random() < 0.6] or ["evict"]
+    world["fc"] = {"p_lookup": swarm.choice([0.0, 0.005, 0.02, 0.05]), "lookup_kinds": kinds}
+    srng = core.stream(seed, "schedule")
+    policy = srng.choice(["round_robin", "random", "bursty", "twin_chase"])
+    sched = e1run.make_schedule(srng, {t["id"]: t["program"] for t in tasks}, policy, swarm.choice([0.0, 0.05, 0.15, 0.3]), ["clear_all", "resize"])
+    case = {"format": 1, "property": PROP, "engine": "E2+E3", "arm": arm, "seed": seed, "world": world, "tasks": tasks, "schedule": sched,
+            "inner": {}, "mode": "draw", "policy": policy, "reference": "isolated-undisturbed-real-cache"}
+    # like for like: the reference is an isolated, undisturbed execution of each task's final program (the generation pass also ran the shadows)
+    return case, reference(case)
+
+
 def reference(case):
     """Cold isolated run of every task of a case (used by replay, where programs may be shrunk)."""
     refs = {}
     for ts in case["tasks"]:
-        sub = {"seed": case["seed"], "world": {"cache_impl": "off", "lapack": False}, "tasks": [ts],
+        sub = {"seed": case["seed"], "world": {"cache_impl": "real" if case.get("reference") else "off", "lapack": False}, "tasks": [ts],
                "schedule": [["op", ts["id"], r["id"]] for r in ts["program"]], "inner": {}, "mode": "plan"}
         digs = {}
 
         def on_step(w, task, rec, res, digs=digs):
-            digs[rec["id"]] = [e1run.exc_digest(res)] if isinstance(res, Exception) else [e1run.out_digest(x) for x in res]
+            digs[rec["id"]] = [e1run.exc_digest(res)] if isinstance(res, Exception) else e1run.step_digests(task, rec)
         e1run.run_case(sub, on_step)
         refs[ts["id"]] = digs
     return refs
@@ -86,7 +135,7 @@ def simulate(case, refs):
     """Interleaved run; returns (violation dict | None, world)."""
     def on_step(w, task, rec, res):
         exp = refs[task.id].get(rec["id"])
-        got = [e1run.exc_digest(res)] if isinstance(res, Exception) else [e1run.out_digest(x) for x in res]
+        got = [e1run.exc_digest(res)] if isinstance(res, Exception) else e1run.step_digests(task, rec)
         if exp != got:
             if isinstance(res, Exception) or (exp and exp[0].startswith("EXC:")):
                 raise core.Violation(PROP, "O4-exception-differs", "task %s op %s (%s): isolated cold run gave %s, simulated run gave %s (%s)"
@@ -121,7 +170,8 @@ core.World.__init__ = _init
 
 
 def run_seed(seed, tier):
-    case, refs = build(seed, tier)
+    mixed = core.stream(seed, "object-world").random() < 0.25
+    case, refs = build_mixed(seed, tier) if mixed else build(seed, tier)
     v, w = simulate(case, refs)
     w = w or _LAST[0]
     case["inner"] = dict(w.inner_fired)
@@ -133,8 +183,15 @@ def run_seed(seed, tier):
     st["gen_rejected_ops"] = 0
     out = {"violation": v, "case": case if v else None, "stats": st, "probes": dict(w.probes),
            "digest": e1run.schedule_digest(case), "nontrivial": bool(nontrivial), "arm": case["arm"],
-           "sample": e1run.brief_case(case) if seed % 500 == 0 else None}
+           "sample": e1run.brief_case(case) if seed % 500 == 0 else None, "world_kind": "containers" if mixed else "tensors"}
     return out
+
+
+def extra_evidence(results):
+    k = {}
+    for r in results:
+        k[r.get("world_kind", "tensors")] = k.get(r.get("world_kind", "tensors"), 0) + 1
+    return {"runs_by_object_world": {"twin tensor tasks (E1)": k.get("tensors", 0), "twin MPS tasks + PEPS task incl. dmrg_/tdvp_ workers, environments (E2+E3)": k.get("containers", 0)}}
 
 
 def replay(case):
